@@ -54,8 +54,21 @@ pub(crate) fn decompress(data: &[u8], expected_size: usize) -> Result<Vec<u8>> {
     while !exploder.ended && input_pos < data.len() && total_output < expected_size {
         let remaining_input = &data[input_pos..];
 
-        match exploder.explode_block(remaining_input) {
+        // The exploder indexes its tables with values taken from the stream and panics on
+        // some malformed streams: report that as a decompression error
+        let block = std::panic::catch_unwind(std::panic::AssertUnwindSafe(|| {
+            exploder
+                .explode_block(remaining_input)
+                .map(|(consumed, block)| (consumed, block.to_vec()))
+        }))
+        .map_err(|_| decompression_error("PKWare", "malformed stream"))?;
+
+        match block {
             Ok((consumed, output_block)) => {
+                // A block that neither consumes input nor produces output would never end
+                if consumed == 0 && output_block.is_empty() {
+                    return Err(decompression_error("PKWare", "stream makes no progress"));
+                }
                 input_pos += consumed;
 
                 // Copy output block to our buffer
